@@ -39,4 +39,9 @@ CHECKS = {
   "note": "Trusted: the truth model defines equivalence (same physical errors re-expressed; covariance signs follow the angle sense). Standard deviations of adjusted observations inside banded clusters are excluded (known finding shared with C09). 3-8 points.",
   "technique": "metamorphic property-based testing (Hypothesis) on the real binary",
  },
+ "C08": {
+  "text": "Metamorphic generated-input search over noisy free networks: two numpy-verified admissible constrained-point subsets are adjusted by the real binary; residuals, v'Pv, dof, adjusted observations, their standard deviations and the shape of the adjusted network must agree; within each run the corrections of the constrained coordinates are orthogonal to the null space of the dumped design matrix and equal numpy's minimal-norm solution.",
+  "note": "Trusted: truth Jacobian and its null space (numpy), driver dump of the design matrix. Agreement between two datums is limited by gama's own linearisation criterion (tolerances 2e-3 mm / 2e-2 cc / 2e-6 m, 2e-3 relative on v'Pv). Near-singular configurations (singular value ratio < 1e-2) are discarded as ambiguous.",
+  "technique": "metamorphic property-based testing (Hypothesis) + differential check against numpy minimal-norm solution",
+ },
 }
